@@ -117,6 +117,8 @@ Definition create_parts (method_get version_ge_11 : bool) (hs : headers) : hres 
 (* StatusCode Display: "<code> <canonical reason>" for the codes the generators use *)
 Definition status_text (code : N) : bytes :=
   if code =? 101 then B"101 Switching Protocols" else if code =? 200 then B"200 OK"
+  else if code =? 100 then B"100 Continue" else if code =? 301 then B"301 Moved Permanently"
+  else if code =? 302 then B"302 Found" else if code =? 304 then B"304 Not Modified"
   else if code =? 204 then B"204 No Content"
   else if code =? 400 then B"400 Bad Request" else if code =? 401 then B"401 Unauthorized"
   else if code =? 403 then B"403 Forbidden" else if code =? 404 then B"404 Not Found"
